@@ -106,7 +106,7 @@ def handlePrintList (lead occ w k items : String) : String :=
   | _, _, _, _ => "bad-op"
 
 mutual
-/-- operand tokens: `w,<hex>` | `p,<hex>` | `fw,<hex>,<hex>` | `fp,<hex>,<hex>` | `g,<lead>,<occ>,<k>,<n>,Opd, n × (<op>,<occ>,<sp1>,<sp2>,Opd)` -/
+/-- operand tokens: `w,<hex>` | `p,<hex>` | `fw,<hex>,<hex>` | `fp,<hex>,<hex>` | `n,<k>,Opd` | `g,<lead>,<occ>,<k>,<n>,Opd, n × (<op>,<occ>,<sp1>,<sp2>,Opd)` -/
 def parseOpdToks : Nat → List String → Option (Opd × List String)
   | 0, _ => none
   | fuel + 1, toks =>
@@ -120,6 +120,10 @@ def parseOpdToks : Nat → List String → Option (Opd × List String)
     | "fp" :: hf :: h :: rest =>
       match textOfHex hf, textOfHex h with
       | some f, some w => some (fieldPhraseOpd f w, rest)
+      | _, _ => none
+    | "n" :: k :: rest =>
+      match k.toNat?, parseOpdToks fuel rest with
+      | some k, some (o, rest1) => some (notOpd k o, rest1)
       | _, _ => none
     | "g" :: lead :: occ :: k :: n :: rest =>
       match lead.toNat?, parseOccTok occ, k.toNat?, n.toNat? with
